@@ -351,7 +351,7 @@ def check_call(ctx, call, backend, args, validate=True):
 def directed_calls():
     """Deterministic structural sweep: every non-empty subset of bracketed positions among 1..4 axes of pairwise
     distinct lengths, for argmax (coordinate output first and last), sum and flip; n-ary elementwise, get_at and
-    sort/argsort forms; the non-adjacent diagonal."""
+    sort/argsort forms; the non-adjacent diagonal; all arrangements of repeated names up to five axes."""
     import itertools
     sizes = [2, 3, 4, 5]
     names = ["a", "b", "c", "d"]
@@ -384,6 +384,23 @@ def directed_calls():
             yield {"op": op, "family": "preserve_shape", "desc": desc, "shapes": [shape], "kwargs": {}, "note": ["directed"]}
     for desc, shape in [("a e a d -> a d e", (2, 3, 2, 4)), ("b a c a -> a b c", (3, 2, 4, 2)), ("a b a c -> c b a", (2, 3, 2, 4)), ("a a b a -> b a", (2, 2, 3, 2))]:
         yield {"op": "id", "family": "id", "desc": desc, "shapes": [shape], "kwargs": {}, "note": ["directed", "diagonal"]}
+    # every arrangement (up to renaming) of up to five axes over three names in which a name repeats: one, two and three
+    # diagonals in one input, adjacent or not, with a trailing axis as long as a repeated one (b and c both have length 3)
+    length = {"a": 2, "b": 3, "c": 3}
+    for n in range(2, 6):
+        for word in itertools.product("abc", repeat=n):
+            first = []
+            for ch in word:
+                if ch not in first:
+                    first.append(ch)
+            if first != sorted(first) or first[0] != "a" or (len(first) > 1 and first[1] != "b") or len(first) == n:
+                continue
+            shape = tuple(length[ch] for ch in word)
+            out = " ".join(reversed(first))
+            yield {"op": "id", "family": "id", "desc": f"{' '.join(word)} -> {out}", "shapes": [shape], "kwargs": {}, "note": ["directed", "diagonal"]}
+            if n == 5:
+                yield {"op": "add", "family": "elementwise", "desc": f"{' '.join(word)}, {first[-1]} -> {out}", "shapes": [shape, (length[first[-1]],)], "kwargs": {},
+                       "note": ["directed", "diagonal"]}
 
 
 def run(ctx):
